@@ -340,6 +340,18 @@ func checkOrderedMapCoupling(r *Reporter, p *Prog) {
 			r.Fail("omap/iteration-order", key, p.posStr(fd.Pos()), fmt.Sprintf("must start at %s and follow %s; found start %v step %v", row.start, row.step, starts, steps))
 		}
 	}
+	checkOmapRemovedKeepsLinks(r, p)
+}
+
+// checkOmapRemovedKeepsLinks (shared by C11 and C15: event hooks live in an OrderedMap that Trigger
+// walks with ForEach while hooks unhook themselves or are unhooked concurrently).
+func checkOmapRemovedKeepsLinks(r *Reporter, p *Prog) {
+	const om = "ds/orderedmap"
+	if p.Pkg(om) == nil {
+		r.Unresolved("omap/removed-element-keeps-links", om, "package not loaded")
+		return
+	}
+	info := p.Pkg(om).TypesInfo
 	// ---- a removed element keeps its own links
 	// ForEach/ForEachReverse release the lock between steps and continue from the pointer of the
 	// element they visited last; if that element was deleted meanwhile (by the consumer or by
